@@ -217,6 +217,33 @@ def oracle_c11(scn, run):
     for ref, n in refs.items():
         if n > 1:
             v.append(({"class": "reference-twice"}, "reference %r is carried by %d committed transactions" % (ref, n)))
+    reqs, d = scn["requests"], run["durable"]
+    prod = producers(run)
+    # the reference that is committed is the reference that was submitted (and checked), byte for byte: the entry a request wrote,
+    # and the transaction it was answered
+    for l in tx_logs(d):
+        a = prod.get(l["id"])
+        if l["funding"] or a is None or not (0 <= a < len(reqs)) or reqs[a]["kind"] != "create":
+            continue
+        if l["tx"]["reference"] != (reqs[a].get("ref") or ""):
+            v.append(({"class": "reference-altered", "where": "entry"},
+                      "request %d submitted the reference %r; the transaction it committed (entry %s) carries %r" % (a, reqs[a].get("ref") or "", l["id"], l["tx"]["reference"])))
+    for r in run["responses"]:
+        q = reqs[r["req"]]
+        if q["kind"] != "create" or not r["ok"] or not r["tx"]:
+            continue
+        if not q.get("ik") and r["tx"]["reference"] != (q.get("ref") or ""):
+            v.append(({"class": "reference-altered", "where": "answer"},
+                      "request %d submitted the reference %r and was answered a transaction carrying %r" % (r["req"], q.get("ref") or "", r["tx"]["reference"])))
+        # a request whose reference equals, as submitted, the reference of a transaction persisted before it was answered — another
+        # one than its own, not the one recorded under its idempotency key — is refused
+        if q.get("ref") and not q.get("dry"):
+            own = {lid for lid, a in prod.items() if a == r["req"]}
+            holders = [l for l in tx_logs(d[:r["durable"]]) if l["tx"]["reference"] == q["ref"] and l["id"] not in own and l["tx"]["id"] != r["tx"]["id"]]
+            if holders:
+                v.append(({"class": "reference-twice", "how": "accepted-although-committed"},
+                          "request %d with the reference %r was accepted (transaction %s) although transaction %s, persisted before, carries that reference" % (
+                              r["req"], q["ref"], r["tx"]["id"], holders[0]["tx"]["id"])))
     return v
 
 
@@ -444,6 +471,19 @@ def oracle_c14(scn, run):
             if rec and rec[0]["tx"]["id"] != r["tx"]["id"]:
                 v.append(({"class": "preview-answer-differs", "what": "recorded-key"},
                           "a preview with the recorded key %r was answered transaction %s, the real write would answer %s" % (q["ik"], r["tx"]["id"], rec[0]["tx"]["id"])))
+    # … whatever is in flight around it: the same scenario, same plan, with THIS preview submitted as the real write (run["twin_real"]);
+    # the two runs are the same schedule up to the point where the request has decided its answer; compared when both answered
+    for t in run.get("twin_real") or []:
+        j = t["req"]
+        mine = next((r for r in run["responses"] if r["req"] == j), None)
+        theirs = next((r for r in t["responses"] if r["req"] == j), None)
+        if mine is None or theirs is None:
+            continue
+        a, b = answer_class(mine), answer_class(theirs)
+        if a != b:
+            v.append(({"class": "preview-answer-differs", "what": "same-position", "kind": reqs[j]["kind"], "preview": a, "real": b},
+                      "request %d (%s) submitted as a preview was answered %r; submitted as the real write in the same position of the same schedule it is answered %r" % (
+                          j, reqs[j]["kind"], a, b)))
     tw = run.get("twin")
     if tw is not None:
         def row(l):  # what the entry says, metadata writes included (time stamps and hashes differ between two runs)
@@ -462,6 +502,10 @@ def oracle_c14(scn, run):
         if ea != eb and a == b and ra == rb:
             v.append(({"class": "later-history-differs", "what": "events"}, "with the previews %d messages reached the bus, without them %d (or other ones)" % (len(ea), len(eb))))
     return v
+
+
+def answer_class(r):
+    return "accepted" if r["ok"] else r["err"].split(":")[0]
 
 
 ORACLES = {"C13": oracle_stored, "C02": oracle_c02, "C05": oracle_c05, "C06": oracle_c06, "C07": oracle_c07, "C10": oracle_c10, "C11": oracle_c11,
@@ -541,8 +585,8 @@ def scenario_shapes(scn):
         out.add("chained transaction (world -> a n ; a -> b m, m < n)")
     if any(q.get("dry") and q["kind"] in ("setmeta", "delmeta") for q in reqs):
         out.add("preview of a metadata write" + (", twin run" if scn.get("twin") else ""))
-    if scn.get("series") == 3:
-        out.add("series 3: " + str(scn.get("name")))
+    if scn.get("series") in (3, 4):
+        out.add("series %d: %s" % (scn["series"], scn.get("name")))
     return out
 
 
@@ -660,9 +704,69 @@ def history_shapes(scn, run):
                 if a != b and qa["kind"] == "revert" and seg[b]["cancelled"] < seg[a].get("at:revert-take", inf) < seg[b].get("persisted", inf):
                     out.add("revert cancelled while waiting for the store, then a revert of %s transaction before its entry is persisted: %s" % (
                         "the SAME" if qa.get("target") == q.get("target") else "ANOTHER", res_of.get(a, "never answered")))
+    # ---- situations of the fourth series
+    # (6) a reference that differs from a committed one only by blanks / letter case / invisible characters; the same spelling again
+    for r in run["responses"]:
+        q = reqs[r["req"]]
+        if q["kind"] == "create" and q.get("ref") and not q.get("dry"):
+            res = "accepted" if r["ok"] else r["err"].split(":")[0]
+            own = r["tx"]["id"] if r["ok"] and r["tx"] else None
+            others = [l["tx"]["reference"] for l in tx_logs(d[:r["durable"]]) if l["tx"]["reference"] and l["tx"]["id"] != own]
+            if any(o != q["ref"] and ref_key(o) == ref_key(q["ref"]) for o in others):
+                out.add("reference differing from a committed one only by blanks / case / invisible characters: " + res)
+            if ref_key(q["ref"]) != q["ref"].lower() and q["ref"] in others:
+                out.add("a padded reference submitted again under the same spelling: " + res)
+    for b, q in enumerate(reqs):
+        # (7) a preview of a revert, from its first step to its answer inside the window in which a real revert of the same transaction
+        # is reserved and not yet persisted; another real revert of that transaction starting after the preview, inside the same window
+        if q["kind"] == "revert" and q.get("dry") and "finish" in seg[b] and "at:revert-take" in seg[b]:
+            for a, qa in enumerate(reqs):
+                if a != b and qa["kind"] == "revert" and not qa.get("dry") and qa.get("target") == q.get("target") and "at:revert-take" in seg[a] and \
+                        seg[a]["at:revert-take"] < seg[b]["at:revert-take"] and seg[b]["finish"] < seg[a].get("persisted", seg[a].get("finish", inf)):
+                    later = [c for c, qc in enumerate(reqs) if c not in (a, b) and qc["kind"] == "revert" and not qc.get("dry") and qc.get("target") == q.get("target") and
+                             seg[b]["finish"] < seg[c].get("at:revert-take", inf) < seg[a].get("persisted", seg[a].get("finish", inf))]
+                    out.add("preview of a revert answered (%s) while a real revert of the same transaction is in flight%s" % (
+                        res_of.get(b, "?"), "; a second real revert before the first is persisted: " + res_of.get(later[0], "never answered") if later else ""))
+        # (8) a preview that started while a real write touching its source account was committed and not yet persisted
+        if q.get("dry") and q["kind"] in ("create", "revert") and "at:start" in seg[b]:
+            mine = {q.get("src")} if q["kind"] == "create" else ({p[1] for p in by_id[str(q["target"])]["tx"]["postings"]} if str(q.get("target")) in by_id else set())
+            for a, qa in enumerate(reqs):
+                if a == b or qa.get("dry") or "commit" not in seg[a]:
+                    continue
+                touched = {qa.get("src"), qa.get("dst")} if qa["kind"] == "create" else set()
+                window = (seg[a]["commit"], seg[a].get("persisted", inf))
+                if (mine & touched) - {"world", None} and "finish" in seg[b]:
+                    if any(window[0] < seg[b].get(k, -1) < window[1] for k in ("at:start", "at:resolve", "at:lock", "at:read-balances", "at:revert-take")):
+                        tr = next((t for t in run.get("twin_real") or [] if t["req"] == b), None)
+                        real = next((answer_class(x) for x in (tr or {}).get("responses", []) if x["req"] == b), "not answered") if tr else "no twin"
+                        out.add("preview on its way while a write on its source account is committed, not yet persisted: preview %s / as the real write %s" % (res_of.get(b, "?"), real))
+    # (9) a lookup that failed, by kind and by whether the request had an entry persisted at that moment
+    pers_at = {}
+    for i, t in enumerate(run["trace"]):
+        if isinstance(t, dict) and t.get("store") == "fault":
+            a = t.get("a")
+            had = seg[a].get("persisted", inf) < i if a is not None else False
+            out.add("transient read fault on a lookup by %s%s: %s" % ({"ik": "idempotency key", "ref": "reference", "tx": "transaction id"}.get(t.get("what"), t.get("what")),
+                                                                       ", AFTER the request's entry was persisted" if had else "", res_of.get(a, "never answered")))
     # (5) graceful stop + reopen while a batch was inside InsertLogs
     cl = run.get("close")
     if cl:
+        pend, npend = [], 0
+        for t in run["trace"]:
+            if not isinstance(t, dict):
+                continue
+            if "committed" in t:
+                pend.append(t["a"])
+            elif t.get("a") == -1 and t.get("at") == "gate":
+                pend = pend[t.get("batch", 1):]
+            elif "crash" in t:
+                pend = []
+            elif "close" in t and "batch_in_store" in t:
+                npend = max(0, len(pend) - int(t.get("batch_in_store") or 0))
+                break
+        woke = sum(1 for t in run["trace"] if isinstance(t, dict) and t.get("after_close"))
+        out.add("graceful stop: entries handed to the batcher and still PENDING behind the batch being written: %s%s" % (
+            "none" if npend == 0 else ">= 1", "; requests of the stopped commander woken by the stop: %d" % woke if woke else ""))
         later = sum(1 for r in run["responses"] if r["ok"] and reqs[r["req"]].get("phase", 0) > cl.get("phase", 0))
         out.add("graceful stop (Close) while a batch of %s was inside InsertLogs — Close returned %s; %s" % (
             "1" if cl.get("batch_in_store") == 1 else ">= 2", cl.get("returned"), "writes accepted after the reopen" if later else "no write after the reopen"))
@@ -671,6 +775,11 @@ def history_shapes(scn, run):
     if any(b < a for a, b in zip(ids, ids[1:])):
         out.add("COMMITTED_TRANSACTIONS messages out of transaction-id order")
     return out
+
+
+def ref_key(ref):
+    """a reference without blanks, control / invisible characters and letter case (what a 'normalising' change would compare)"""
+    return "".join(c for c in ref if not c.isspace() and c not in "\x00\u00a0\u2003\ufeff").lower()
 
 
 _PROD = {}
@@ -851,7 +960,11 @@ def run_check(ctx, prop, components, nontrivial, rule, quick_n=120, thorough_n=1
                        "from metadata rewritten while the request is on its way, a third request spending from the new payer; forced revert racing a payment "
                        "from the account it debits; set-metadata with an empty map with / without key and its retry; revert cancelled while waiting for the "
                        "store, then another revert of the same account / the same transaction; graceful Close while a batch is inside InsertLogs, reopen, "
-                       "further writes) x seeded random schedules "
+                       "further writes) + a quarter as many situations with previews, faults and the stop INSIDE an overlap (one reference under several spellings: blanks, tab, "
+                       "newline, no-break space, letter case, NUL; preview of a revert while a real revert of the same transaction is in flight, then a second real "
+                       "revert, with a twin run under the same directed schedule; preview while a write on its source account is committed and not yet persisted, with "
+                       "a twin run in which the preview is submitted as the real write; the k-th lookup of any kind failing; graceful Close with another entry "
+                       "pending behind the batch being written, requests woken by the stop run on) x seeded random schedules "
                        "over every yield point, persistence latency as a scheduling choice, a crash or a store failure in part of the schedules; non-trivial = %s") % (
                            4 if ctx.quick else 6, rule)
     s0 = inputs[0]
